@@ -8,7 +8,8 @@ from harness import pipeline as PL, solver as S
 SPEC = {
     "gen": ["Rotations", "GetHkl"],
     "modules": ["DiffcalcProofs.Props.C03", "DiffcalcProofs.Props.C03Sample", "DiffcalcProofs.Props.C03Sample2", "DiffcalcProofs.Props.C03Sample3",
-                "DiffcalcProofs.Props.C03Sample4", "DiffcalcProofs.Props.C03Sample5"],
+                "DiffcalcProofs.Props.C03Sample4", "DiffcalcProofs.Props.C03Sample5", "DiffcalcProofs.Props.C03Sample6", "DiffcalcProofs.Props.C03Sample7",
+                "DiffcalcProofs.Props.C03Sample8", "DiffcalcProofs.Props.C03Sample9", "DiffcalcProofs.Props.C03Sample10"],
     "theorems": {"DiffcalcProofs.Props.C03": [
         "C03.detFromQaz_complete", "C03.filter_keeps_exact", "C03.hklMatches_exact", "C03.allOrNothing",
         "C03.asin_roots_complete", "C03.acos_roots_complete"],
@@ -18,7 +19,12 @@ SPEC = {
                                             "C03.sampleConEta_complete"],
         "DiffcalcProofs.Props.C03Sample3": ["C03.lastSampleAngle_complete", "C03.detSpec_congr", "C03.threeSample_complete"],
         "DiffcalcProofs.Props.C03Sample4": ["C03.remainingBranch_complete", "C03.remainingSample_complete"],
-        "DiffcalcProofs.Props.C03Sample5": ["C03.etaBisect_complete"]},
+        "DiffcalcProofs.Props.C03Sample5": ["C03.etaBisect_complete"],
+        "DiffcalcProofs.Props.C03Sample6": ["C03.eta_of_sampleSpec", "C03.sampleConChiPhi_complete"],
+        "DiffcalcProofs.Props.C03Sample7": ["C03.mid_of_sampleSpec", "C03.sampleConMuPhi_complete"],
+        "DiffcalcProofs.Props.C03Sample8": ["C03.mu_unique", "C03.sampleConEtaPhi_complete"],
+        "DiffcalcProofs.Props.C03Sample9": ["C03.eta_unique", "C03.sampleConMuChi_complete"],
+        "DiffcalcProofs.Props.C03Sample10": ["C03.etaChiInner_shape", "C03.sampleConEtaChi_complete"]},
     "level": "proof",
     "rule": "all 185 implemented modes: a random physical position P over (-180,180]^6 (constructed to satisfy the void / bisect / omega constraints where the "
             "mode has them), its constraint values read off with independent geometric pseudo-angles, hkl = forward model of P; P must be a regular point "
@@ -27,10 +33,11 @@ SPEC = {
     "assumptions": ["regularity is judged numerically; bisect modes by construction of a generic position"],
     "partial": "proved: the root-enumeration lemmas (asin / acos pairs exhaust the solutions mod 2 pi), completeness of the detector layer from qaz, an exactly consistent candidate "
                "passes filter and guard, and the all-or-nothing structure of get_position. Branch completeness of the sample layer (every solution of the branch's equation is returned mod 2 pi, "
-               "sibling roots cannot lose the list) is proved for: the mu+eta branch and the three bisect branches built on it (omega / mu / eta + bisect); all four single-sample branches of the "
+               "sibling roots cannot lose the list) is proved for: all nine detector+two-sample branches (mu+eta, the three bisect branches, chi+phi, mu+phi directly; "
+               "eta+phi, mu+chi, eta+chi by root completeness + the soundness theorem + uniqueness of the last angle, mu_unique / eta_unique); all four single-sample branches of the "
                "detector+reference family (mu, phi, chi, eta given: ZYZ / XZY Euler angles, remainingSample_complete); and the whole three-sample family end to end "
-               "(threeSample_complete: free axis from the y-component, qaz read off, detector from qaz). The five remaining detector+two-sample branches and the six reference+two-sample "
-               "branches are covered by candidate-level correspondence + round-trip oracle only.",
+               "(threeSample_complete: free axis from the y-component, qaz read off, detector from qaz). The six reference+two-sample branches and the assembly of the layer statements "
+               "into get_position-level completeness for the other three families are covered by candidate-level correspondence + round-trip oracle only.",
     "search_widen": 4,
 }
 
